@@ -130,8 +130,9 @@ class Game(AsyncMode):
         '''
 
         # Sometimes game_starting handlers will add players, so we only
-        # have to add one here if there aren't any players yet.
-        if self.player_list:
+        # have to add one here if there aren't any players yet. If the end of
+        # the game was requested meanwhile nobody can join: do not wait.
+        if self.player_list or self.ending:
             self._at_least_one_player_event.set()
         else:
             self._at_least_one_player_event.clear()
@@ -485,6 +486,8 @@ class Game(AsyncMode):
         """
         self.ending = True
         self.end_ball()
+        # release a game start which still waits for its first player
+        self._at_least_one_player_event.set()
 
     def _game_ending_completed(self, **kwargs):
         del kwargs
